@@ -7,4 +7,4 @@ extra() { case "$1" in
   C01-B) echo C01,C13;; C10-R2B) echo C10,C09;; C12-R2B) echo C12,C03;; C11-R2B) echo C11,C16;;
   C12-R2A) echo C12,C13;; C14-R2B) echo C14,C20;; *) echo "${1%%-*}";; esac; }
 export -f extra
-ls seeded | grep -v index.json | grep -E "$RE" | xargs -P "$N" -I{} bash -c 'ids=$(extra {}); tools/evalseed.py /verif/seeded/{} $ids > .work/evalseed-{}.log 2>&1; grep -H "^check\|NOT kept\|does not apply\|^evaluated on" .work/evalseed-{}.log'
+ls seeded | grep -v index.json | grep -E "$RE" | xargs -P "$N" -I{} bash -c 'ids=$(extra {}); EVAL_CHECKS_ONLY=1 tools/evalseed.py /verif/seeded/{} $ids > .work/evalseed-{}.log 2>&1; grep -H "^check\|NOT kept\|does not apply\|^evaluated on" .work/evalseed-{}.log'
